@@ -102,7 +102,8 @@ func (m *MergeCompactionIterator) Next() ([]byte, []byte, error) {
 		var toReturn bool
 		var toReturnKey, toReturnVal []byte
 		//we have to accumulate the whole sequence
-		if m.prevKey != nil && m.comp.Compare(k, m.prevKey) != 0 {
+		// a group is pending when values were buffered, the key itself can legitimately be nil/empty
+		if len(m.valBuf) > 0 && m.comp.Compare(k, m.prevKey) != 0 {
 			kReduced, vReduced := m.reduce(m.prevKey, m.valBuf, m.ctxBuf)
 			if kReduced != nil || vReduced != nil {
 				toReturn = true
